@@ -463,3 +463,6 @@ fn c09_sums() {
     kani::cover!(s.is_none() && (-MM..=MM).contains(&q2));
     kani::cover!(s.is_some() && q2 == -MM);
 }
+
+// (A Sum harness over 8800 terms - what the seeded change C09-m3 needs - did not finish: the
+// early exit of try_fold is symbolic, so CBMC unrolls all 8800 iterations. Outside the claim.)
